@@ -28,21 +28,29 @@ type Step struct {
 }
 
 type Input struct {
-	Soft     bool       `json:"soft"`
-	Allow    string     `json:"allow"`    // off | config | session
-	Finisher string     `json:"finisher"` // update updates_map updates_struct update_column update_columns delete
-	PK       int64      `json:"pk"`       // 0 = model value without primary key
-	QueryFirst bool     `json:"query_first"` // Count on the same handle before the write
-	Atoms    []whr.Atom `json:"atoms"`
-	Steps    []Step     `json:"steps"`
+	Soft       bool   `json:"soft"`
+	Allow      string `json:"allow"`       // off | config | session
+	Finisher   string `json:"finisher"`    // update updates_map updates_struct update_column update_columns delete
+	PK         int64  `json:"pk"`          // 0 = model value without primary key
+	QueryFirst bool   `json:"query_first"` // Count on the same handle before the write
+	// Target: how the rows' table / model value reach the finisher.
+	//  "" (model): Model(&T{ID:pk}) + finisher, Delete(&T{ID:pk})
+	//  table_only: Table("t") and no model at all (no schema is parsed): Update / Updates(map) /
+	//              UpdateColumn(s) / Delete(nil) / Delete(&map)
+	//  model_dest: Model(&T{ID:pk}).Delete(&T{}) - the key comes from the Model value, not from Dest
+	//  slice:      Model(&[]T{{ID:pk},{ID:pk+1}}) + update finisher, Delete(&[]T{...}); pk 0 = every
+	//              element without key
+	Target string     `json:"target,omitempty"`
+	Atoms  []whr.Atom `json:"atoms"`
+	Steps  []Step     `json:"steps"`
 }
 
 type Obs struct {
-	Missing  bool     `json:"missing"`
-	OtherErr string   `json:"other_err"`
-	Execs    int      `json:"execs"` // exec / query / prepare driver calls
-	TxEvents string   `json:"tx_events"`
-	Changed  bool     `json:"changed"`
+	Missing  bool             `json:"missing"`
+	OtherErr string           `json:"other_err"`
+	Execs    int              `json:"execs"` // exec / query / prepare driver calls
+	TxEvents string           `json:"tx_events"`
+	Changed  bool             `json:"changed"`
 	Texts    map[int][]string `json:"texts"`
 }
 
@@ -145,30 +153,34 @@ func (e *env) run(in Input) Obs {
 	}
 	rec.Reset()
 	var res *gorm.DB
-	switch in.Finisher {
-	case "update":
-		res = tx.Model(model()).Update("mark", 7)
-	case "updates_map":
-		res = tx.Model(model()).Updates(map[string]interface{}{"mark": 7})
-	case "updates_struct":
-		if in.Soft {
-			res = tx.Model(model()).Updates(whr.TS{Mark: 7})
-		} else {
-			res = tx.Model(model()).Updates(whr.T{Mark: 7})
+	if in.Target != "" {
+		res = runTarget(tx, in, table)
+	} else {
+		switch in.Finisher {
+		case "update":
+			res = tx.Model(model()).Update("mark", 7)
+		case "updates_map":
+			res = tx.Model(model()).Updates(map[string]interface{}{"mark": 7})
+		case "updates_struct":
+			if in.Soft {
+				res = tx.Model(model()).Updates(whr.TS{Mark: 7})
+			} else {
+				res = tx.Model(model()).Updates(whr.T{Mark: 7})
+			}
+		case "updates_struct_nomodel":
+			// the updating struct itself is the model value (zero primary key unless PK is set)
+			if in.Soft {
+				res = tx.Updates(&whr.TS{ID: in.PK, Mark: 7})
+			} else {
+				res = tx.Updates(&whr.T{ID: in.PK, Mark: 7})
+			}
+		case "update_column":
+			res = tx.Model(model()).UpdateColumn("mark", 7)
+		case "update_columns":
+			res = tx.Model(model()).UpdateColumns(map[string]interface{}{"mark": 7})
+		case "delete":
+			res = tx.Delete(model())
 		}
-	case "updates_struct_nomodel":
-		// the updating struct itself is the model value (zero primary key unless PK is set)
-		if in.Soft {
-			res = tx.Updates(&whr.TS{ID: in.PK, Mark: 7})
-		} else {
-			res = tx.Updates(&whr.T{ID: in.PK, Mark: 7})
-		}
-	case "update_column":
-		res = tx.Model(model()).UpdateColumn("mark", 7)
-	case "update_columns":
-		res = tx.Model(model()).UpdateColumns(map[string]interface{}{"mark": 7})
-	case "delete":
-		res = tx.Delete(model())
 	}
 	evs := rec.Snapshot()
 	for _, ev := range evs {
@@ -188,6 +200,55 @@ func (e *env) run(in Input) Obs {
 	}
 	o.Changed = dump(db, table) != before
 	return o
+}
+
+// runTarget issues the finisher for the non-default ways of naming the target rows.
+func runTarget(tx *gorm.DB, in Input, table string) *gorm.DB {
+	upd := func(tx *gorm.DB) *gorm.DB {
+		switch in.Finisher {
+		case "update":
+			return tx.Update("mark", 7)
+		case "updates_map":
+			return tx.Updates(map[string]interface{}{"mark": 7})
+		case "update_column":
+			return tx.UpdateColumn("mark", 7)
+		case "update_columns":
+			return tx.UpdateColumns(map[string]interface{}{"mark": 7})
+		}
+		return nil
+	}
+	switch in.Target {
+	case "table_only":
+		tx = tx.Table(table)
+		switch in.Finisher {
+		case "delete":
+			return tx.Delete(nil)
+		case "delete_map":
+			return tx.Delete(&map[string]interface{}{})
+		}
+		return upd(tx)
+	case "model_dest":
+		if in.Soft {
+			return tx.Model(&whr.TS{ID: in.PK}).Delete(&whr.TS{})
+		}
+		return tx.Model(&whr.T{ID: in.PK}).Delete(&whr.T{})
+	case "slice":
+		var sl interface{}
+		k2 := in.PK
+		if k2 != 0 {
+			k2++
+		}
+		if in.Soft {
+			sl = &[]whr.TS{{ID: in.PK}, {ID: k2}}
+		} else {
+			sl = &[]whr.T{{ID: in.PK}, {ID: k2}}
+		}
+		if in.Finisher == "delete" {
+			return tx.Delete(sl)
+		}
+		return upd(tx.Model(sl))
+	}
+	panic("unknown target " + in.Target)
 }
 
 func model0(in Input) interface{} {
@@ -226,7 +287,7 @@ func term(in Input, o Obs) string {
 
 func shape(in Input) string {
 	var sb strings.Builder
-	fmt.Fprintf(&sb, "%v|%s|%s|%v|%v|", in.Soft, in.Allow, in.Finisher, in.PK != 0, in.QueryFirst)
+	fmt.Fprintf(&sb, "%v|%s|%s|%v|%v|%s|", in.Soft, in.Allow, in.Finisher, in.PK != 0, in.QueryFirst, in.Target)
 	for _, s := range in.Steps {
 		if s.Call != nil {
 			sb.WriteString(whr.Shape([]whr.Call{*s.Call}))
@@ -252,6 +313,15 @@ func alphabet() []Step {
 
 var finishers = []string{"update", "updates_map", "updates_struct", "updates_struct_nomodel", "update_column", "update_columns", "delete"}
 var allows = []string{"off", "config", "session"}
+var targets = []struct {
+	name string
+	fins []string
+	pks  []int64
+}{
+	{"table_only", []string{"update", "updates_map", "update_column", "update_columns", "delete", "delete_map"}, []int64{0}},
+	{"model_dest", []string{"delete"}, []int64{0, 3}},
+	{"slice", []string{"update", "updates_map", "update_column", "update_columns", "delete"}, []int64{0, 3}},
+}
 
 func main() {
 	a := lib.ParseArgs()
@@ -275,6 +345,7 @@ func main() {
 		out.Add(lib.Case{Term: term(in, o), JSON: map[string]interface{}{"input": in, "observed": o},
 			Kind: kind, Shape: shape(in), Nontriv: len(in.Steps) > 0})
 		out.Count("finisher", in.Finisher)
+		out.Count("target", "model"+in.Target)
 		out.Count("allow", in.Allow)
 		out.Count("soft", fmt.Sprint(in.Soft))
 		out.Count("effective_condition", fmt.Sprint(eff))
@@ -343,6 +414,24 @@ func main() {
 				}
 			}
 		}
+		// the other ways of naming the target rows
+		for _, tg := range targets {
+			for _, f := range tg.fins {
+				for _, soft := range []bool{false, true} {
+					if soft && tg.name == "table_only" {
+						continue // no schema, hence no soft delete
+					}
+					for _, al := range allows {
+						for _, pk := range tg.pks {
+							if len(ch) > 1 && !r.Chance(1, keep*3) {
+								continue
+							}
+							add("enum", Input{Soft: soft, Allow: al, Finisher: f, PK: pk, Steps: ch, Target: tg.name})
+						}
+					}
+				}
+			}
+		}
 	}
 	// random chains with at least one real condition mixed with condition-free calls
 	budget := 500
@@ -356,6 +445,13 @@ func main() {
 		in := Input{Soft: r.Bool(), Allow: lib.Pick(r, []string{"off", "off", "config", "session"}), Finisher: lib.Pick(r, finishers)}
 		if r.Chance(1, 4) {
 			in.PK = 3
+		}
+		if r.Chance(1, 4) {
+			tg := lib.Pick(r, targets)
+			in.Target, in.Finisher = tg.name, lib.Pick(r, tg.fins)
+			if tg.name == "table_only" {
+				in.Soft, in.PK = false, 0
+			}
 		}
 		in.Atoms = whr.GenAtoms(r, names, nicks)
 		g := whr.NewGen(r, in.Atoms)
